@@ -32,6 +32,8 @@ def run(db, rep, tier):
     r1(db, rep)
     r2(db, rep)
     r3(db, rep)
+    rep.rule("R5-latest-key", "session keys learned from a new handshake (or supplied directly) replace the stored ones for that pair", 2)
+    r5(db, rep)
     r4(db, rep)
     rep.explanation = ("Also decides the step table of RSNHandshakeCapturer::do_insert (R4: append iff next expected, keep state on a "
                        "retransmission of the last stored message). Decides two clauses of C09: 'frames whose integrity check fails are never reported as decrypted' "
@@ -261,3 +263,42 @@ def r4(db, rep):
         rep.violation("R4-handshake-step", key, facts.loc(f), bad)
     else:
         rep.ok("R4-handshake-step", key, facts.loc(f), "append iff stored == expected; stored == expected + 1 (retransmission) leaves the state; table of 4 x 6 cells")
+
+
+def r5(db, rep):
+    """keys_ is keyed by the address pair; a later handshake for the same pair carries the current key: stores into keys_
+    must overwrite (operator[] assignment or erase + insert), map::insert / emplace keep the stale entry"""
+    n = 0
+    for fid, f in sorted(db.functions.items()):
+        if f.get("rec") != "Tins::Crypto::WPA2Decrypter" or not f.get("body"):
+            continue
+        for x in facts.fn_nodes(f):
+            tgt = None
+            kind = None
+            if x["k"] == "CXXMemberCallExpr" and x.get("cname") in ("insert", "emplace", "emplace_hint"):
+                me = x["c"][0]
+                while me["k"] in ("ParenExpr", "ImplicitCastExpr"):
+                    me = me["c"][0]
+                o = facts.strip_all(me["c"][0]) if me.get("c") else None
+                if o is not None and o["k"] == "MemberExpr" and o.get("member") == "keys_":
+                    tgt, kind = x, x.get("cname")
+            if x["k"] == "CXXOperatorCallExpr" and x.get("op") == "=":
+                l = facts.strip_all(x["c"][1])
+                if l["k"] == "CXXOperatorCallExpr" and l.get("op") == "[]" and "keys_" in facts.expr_str(l["c"][1]):
+                    tgt, kind = x, "operator[] ="
+            if tgt is None:
+                continue
+            n += 1
+            key = "%s:keys_#%d" % (f["qual"].split("::")[-1], n)
+            if kind == "operator[] =":
+                rep.ok("R5-latest-key", key, facts.loc(f, tgt), "keys_[pair] = session overwrites")
+            else:
+                erased = any(y["k"] == "CXXMemberCallExpr" and y.get("cname") == "erase" and "keys_" in facts.expr_str(y["c"][0]) for y in facts.fn_nodes(f))
+                if erased:
+                    rep.ok("R5-latest-key", key, facts.loc(f, tgt), "erase + %s" % kind)
+                else:
+                    rep.violation("R5-latest-key", key, facts.loc(f, tgt),
+                                  "keys_.%s(...) does not replace an existing entry: after a second handshake (re-association, key renewal) frames "
+                                  "under the current key are not decrypted and frames under the superseded key still are" % kind)
+    if n < 2:
+        rep.analysis_broken("only %d store(s) into WPA2Decrypter::keys_ found" % n)
